@@ -206,15 +206,53 @@ def _canaries(obs_path):
     return recs
 
 
+class Crashed(Exception):
+    """the harness process was killed by a signal while executing the code under test"""
+    def __init__(self, where):
+        self.where = where
+
+
+def _last_beh_id(obs):
+    """id of the behaviour of the last complete record of a (possibly truncated) observation file"""
+    last = 0
+    try:
+        with open(obs, "rb") as f:
+            f.seek(0, 2)
+            size = f.tell()
+            f.seek(max(0, size - 200000))
+            for line in f.read().decode("utf-8", "replace").splitlines():
+                m = re.match(r'\{"beh":(\d+),', line)
+                if m and line.endswith("}"):
+                    last = max(last, int(m.group(1)))
+    except OSError:
+        pass
+    return last
+
+
 def observe(bin_, beh_path, wd, thorough):
     obs = os.path.join(wd, "obs.ndjson")
-    p = run([bin_, beh_path, obs, "all"], timeout=3000)
+    p = run([bin_, beh_path, obs, "all"], timeout=3000, check=False)
+    if p.returncode > 0:
+        raise ToolError("harness/strs failed (rc=%d): %s" % (p.returncode, p.stderr[-2000:]))
+    if p.returncode < 0:
+        # killed by a signal (abort / segfault inside the code under test): that is data.  Locate the step by
+        # re-running from the last behaviour that was recorded, announcing every step on stderr.
+        start = max(1, _last_beh_id(obs) - 50)
+        q = run([bin_, beh_path, os.path.join(wd, "obs-trace.ndjson"), "all", str(start)], timeout=3000, check=False,
+                env={"STRS_TRACE": "1"})
+        at = [l for l in q.stderr.splitlines() if l.startswith("AT ")]
+        where = at[-1].split() if at else ["AT", "0", "0", "?", "?"]
+        raise Crashed({"signal": -p.returncode, "rerun_rc": q.returncode, "beh": int(where[1]), "step": int(where[2]),
+                       "ty": where[3], "cfg": where[4]})
     nbeh, nsteps, nlines = (int(x) for x in p.stdout.split())
+    escaped = [json.loads(l) for l in open(obs + ".escaped") if l.strip()]
     canaries = _canaries(obs)
+    if len(canaries) < 4:
+        raise ToolError("too few canary records could be built (%d): the observation file lacks basic operations" % len(canaries))
     with open(obs, "a") as f:
         for c in canaries:
             f.write(json.dumps(c, separators=(",", ":")) + "\n")
-    return obs, nbeh, nsteps, nlines, canaries
+    return obs, nbeh, nsteps, nlines, canaries, escaped
 
 
 def evaluate(obs, total_lines):
@@ -299,7 +337,22 @@ def _check(tier, t0, thorough, out, wd):
 
 def _conformance(tier, t0, thorough, out, wd, bins, mc_future):
     beh_path, sets, emit_s = emit(thorough, wd)
-    obs, nbeh, nsteps, nlines, canaries = observe(bins["strs"], beh_path, wd, thorough)
+    try:
+        obs, nbeh, nsteps, nlines, canaries, escaped = observe(bins["strs"], beh_path, wd, thorough)
+    except Crashed as c:
+        w = c.where
+        b = {}
+        with open(beh_path) as f:
+            for line in f:
+                if line.startswith('{"id":%d,' % w["beh"]):
+                    b = json.loads(line)
+        ops = [s_["op"] for s_ in b.get("steps", [])]
+        name = ops[w["step"]]["name"] if w["step"] < len(ops) else "?"
+        out.violation({"clause": "crash", "op": name, "ty": w["ty"], "exp": "-", "obs": "signal %d" % w["signal"], "case": "-"},
+                      {"check": PID, "what": "the process executing the string operations was killed by a signal",
+                       "where": w, "behaviour": ops[: w["step"] + 1], "emission_set": b.get("set")})
+        mc_future.result()
+        return out.finish()
     log("replayed %d behaviours: %d steps executed, %d distinct records" % (nbeh, nsteps, nlines))
     total = nlines + len(canaries)
     t1 = time.time()
@@ -313,6 +366,9 @@ def _conformance(tier, t0, thorough, out, wd, bins, mc_future):
         c = nth_lines(obs, [g])[g]
         if c["canary"] not in flagged.get(g, []):
             raise ToolError("StrObs accepted a corrupted record (canary %s): %s" % (c["canary"], json.dumps(c)[:600]))
+    for e in escaped:
+        out.violation({"clause": "escaped-panic", "op": "constructor", "ty": "?", "exp": "-", "obs": "panic", "case": "-"},
+                      {"check": PID, "what": "a panic escaped from a constructor of the code under test", "record": e})
     behaviours = {}
     drift = collections.Counter()
     skipped = 0
